@@ -177,6 +177,11 @@ func (aead *aesCBCAEAD) Open(dst, nonce, ciphertext, additionalData []byte) ([]b
 	ciphertextTag := ciphertext[len(ciphertext)-aead.tagSize:]
 	ciphertext = ciphertext[:len(ciphertext)-aead.tagSize]
 
+	// The ciphertext is made of whole AES blocks
+	if len(ciphertext)%aes.BlockSize != 0 {
+		return nil, errors.New("invalid ciphertext size")
+	}
+
 	// First, check the authentication tag matches
 	expectTag := aead.hmacTag(hmac.New(aead.macAlg, aead.macKey), additionalData, nonce, ciphertext, aead.tagSize)
 	if !hmac.Equal(ciphertextTag, expectTag) {
